@@ -165,6 +165,11 @@ def gen_recipe(rng: Rng, tier: str, idx: int) -> dict:
             e["kind"] = "lazy_fail"
             e["fail_with"] = rng.choice(["RuntimeError", "MemoryError", "ValueError"])
     cfg["preexisting_readonly"] = rng.sub("ro").chance(0.35)   # stale destination files without write permission (0444)
+    # what the caller does to the model between two saves of the same object (state keyed on the model object or its shape
+    # must not survive an edit): give an initializer other bytes, add an initializer, add or create an uninitialized one
+    cfg["edit"] = rng.sub("edit").weighted([("none", 3), ("new_bytes", 2), ("add_init", 2), ("uninit_added", 3), ("uninit_in_place", 1),
+                                            ("uninit_replaced", 2)])
+    cfg["edit_where"] = rng.sub("edit-where").choice(["first", "last"])
     return {"idx": idx, "inits": inits, "uninit": uninit, "cfg": cfg, "extras": extras}
 
 
